@@ -265,6 +265,12 @@ func c14Ask(fg *promapi.FailoverGroup, q string) c14Result {
 		step, _ := time.ParseDuration(parts[3])
 		_, err := fg.RangeQuery(ctx, parts[1], promapi.NewRelativeRange(lb, step))
 		res.Err = err != nil
+	case "arange": // absolute range: arange|expr|start|end|step (unix seconds)
+		st, _ := strconv.ParseInt(parts[2], 10, 64)
+		en, _ := strconv.ParseInt(parts[3], 10, 64)
+		sp, _ := strconv.ParseInt(parts[4], 10, 64)
+		_, err := fg.RangeQuery(ctx, parts[1], absRange{start: time.Unix(st, 0), end: time.Unix(en, 0), step: time.Duration(sp) * time.Second})
+		res.Err = err != nil
 	case "config":
 		c, err := fg.Config(ctx, time.Minute)
 		if err != nil {
@@ -637,6 +643,11 @@ func runC14(r *hx.Run, replay string) {
 			cs2 := c14Case{Workers: 4, Callers: 8, DelayMs: 5, GoMaxProcs: 4, Rounds: 1, Seed: rr.Int63n(1 << 30),
 				Questions: []string{"range|up|6h|5m", "range|up|24h|5m"}}
 			c14Eval(r, cs2)
+			// an unsplit query (lookback below the slice size) that is exactly the last slice of a split one
+			t0 := int64(1655164800) + 7200*int64(rr.Intn(5))
+			cs3 := c14Case{Workers: 4, Callers: 8, DelayMs: 5, GoMaxProcs: 4, Rounds: 1, Seed: rr.Int63n(1 << 30),
+				Questions: []string{fmt.Sprintf("arange|up|%d|%d|300", t0, t0+3600), fmt.Sprintf("arange|up|%d|%d|300", t0-4*3600, t0+3600)}}
+			c14Eval(r, cs3)
 		}
 	}
 }
